@@ -5,7 +5,7 @@ D="$1"; N=conf-$$
 W=/tmp/wt/$N
 /verif/tools/mkwt.sh $N >/dev/null || exit 3
 cd $W
-demo() { if [ -f "$D/demo.sh" ]; then timeout 900 sh "$D/demo.sh" "$W"; else timeout 900 python3 "$D/demo.py" "$W"; fi; }
+demo() { if [ -f "$D/demo.sh" ]; then timeout 900 bash "$D/demo.sh" "$W"; else timeout 900 python3 "$D/demo.py" "$W"; fi; }
 demo > $W/demo_clean.out 2>&1; rc_clean=$?
 git apply "$D/patch.diff" || { echo "$D: PATCH DOES NOT APPLY"; git -C /repo worktree remove --force $W; exit 2; }
 make -j8 > $W/build.out 2>&1 || { echo "$D: DOES NOT COMPILE"; git -C /repo worktree remove --force $W; exit 2; }
